@@ -104,7 +104,23 @@ fn refuse(buf: Vec<u8>, r: Result<(), jsonb::Error>) -> Option<Vec<u8>> {
 
 /// `Err(())`: bad path
 pub fn step(cur: &[u8], op: &Op) -> Result<Option<Vec<u8>>, ()> {
-    let mut buf = Vec::new();
+    step_into(cur, op, &[])
+}
+
+/// the same operation writing into a buffer that already holds `prefix` (as when one buffer
+/// collects the rows of a column); the result is the appended part.  `Err(())` also when the
+/// prior content was modified (reported by the caller)
+pub fn step_into(cur: &[u8], op: &Op, prefix: &[u8]) -> Result<Option<Vec<u8>>, ()> {
+    let r = step_raw(cur, op, prefix)?;
+    Ok(match r {
+        Some(b) if matches!(op, Op::GetIdx(_) | Op::GetName(..) | Op::GetKp(_) | Op::Keys) => Some(b),
+        Some(b) => { if b.len() < prefix.len() || &b[..prefix.len()] != prefix { return Err(()); } Some(b[prefix.len()..].to_vec()) }
+        None => None,
+    })
+}
+
+fn step_raw(cur: &[u8], op: &Op, prefix: &[u8]) -> Result<Option<Vec<u8>>, ()> {
+    let mut buf = prefix.to_vec();
     Ok(match op {
         Op::Concat(a, l) => match arg_of(cur, a) {
             Some(w) => { let r = if *l { jsonb::concat(&w, cur, &mut buf) } else { jsonb::concat(cur, &w, &mut buf) }; refuse(buf, r) }
@@ -155,7 +171,7 @@ pub fn step(cur: &[u8], op: &Op) -> Result<Option<Vec<u8>>, ()> {
             let jp = parse_json_path(p).map_err(|_| ())?;
             let mut offs = vec![];
             let r = if matches!(op, Op::SelFirst(_)) { jsonb::get_by_path_first(cur, jp, &mut buf, &mut offs) } else { jsonb::get_by_path_array(cur, jp, &mut buf, &mut offs) };
-            match r { Ok(()) if !buf.is_empty() => Some(buf), _ => None }
+            match r { Ok(()) if buf.len() > prefix.len() => Some(buf), _ => None }
         }
     })
 }
@@ -183,7 +199,18 @@ pub fn exec(f: &[&str]) -> Option<String> {
             }
             let mut out: Vec<String> = vec![];
             for (k, op) in ops.iter().enumerate() {
-                match step(&cur, op) {
+                let plain = step(&cur, op);
+                if check {
+                    // the same step into a buffer that already holds earlier bytes: same appended
+                    // bytes, prior bytes untouched
+                    let pre: Vec<u8> = (0..(3 + (k % 5))).map(|i| (0xA5u8).wrapping_add((i * 37) as u8)).collect();
+                    match (&plain, step_into(&cur, op, &pre)) {
+                        (Ok(a), Ok(b)) => if *a != b { return Some(format!("MISMATCH class=buffer-dependent step={} op={} the result written into a non-empty buffer differs", k, toks[k])); },
+                        (Err(()), _) => {}
+                        (Ok(_), Err(())) => return Some(format!("MISMATCH class=buffer-clobbered step={} op={} prior buffer content was modified", k, toks[k])),
+                    }
+                }
+                match plain {
                     Ok(Some(n)) => cur = n,
                     Ok(None) => {}
                     Err(()) => return Some("bad-path".into()),
